@@ -1161,8 +1161,15 @@ fn capture_once(
             d.into_inner().into_inner().into_ops()
         }
         _ => {
-            let sa: Vec<String> = a.iter().map(|x| format!("t{}\n", x)).collect();
-            let sb: Vec<String> = b.iter().map(|x| format!("t{}\n", x)).collect();
+            // (caller-supplied tokens may be anything: item 0 becomes the EMPTY token, item 1 a token of
+            // more than 7 bytes, the rest short ones - the mapping stays injective)
+            let tok = |x: &u32| match *x {
+                0 => String::new(),
+                1 => "a-rather-long-token\n".to_string(),
+                x => format!("t{}\n", x),
+            };
+            let sa: Vec<String> = a.iter().map(tok).collect();
+            let sb: Vec<String> = b.iter().map(tok).collect();
             let ra: Vec<&str> = sa.iter().map(|s| s.as_str()).collect();
             let rb: Vec<&str> = sb.iter().map(|s| s.as_str()).collect();
             let mut c = TextDiff::configure();
